@@ -346,6 +346,7 @@ func runC12(r *Run) {
 		}
 	}
 	checkSelectorDisciplineAs(r, "C12.selector", sels, scope)
+	checkIterAdapters(r, "C12.iter", []string{ndRew + "IteratePD", ndStore + "iterateAddresses", ndStore + "iterate", ndStore + "IteratePendingAmounts"})
 	r.Floor("C12.", 40)
 }
 
